@@ -104,6 +104,9 @@ func orphanOpen() bool {
 	if witnessing.Load() {
 		return false
 	}
+	if !findingListed(orphanKey) {
+		return false // not listed as open in $VERIF_KNOWN: the check stays strict
+	}
 	orphanOnce.Do(func() {
 		witnessing.Store(true)
 		defer witnessing.Store(false)
